@@ -1,4 +1,106 @@
-import CacheVerif.Model.Table
+import CacheVerif.Proofs.TableRefine
+/-!
+# C11 — contents never depend on capacity, resize history, hash seed or bucket layout
+
+`Model.Table` (M3) is the sequential model of `xsync.Map` / `xsync.MapOf` (tied to the code by the generated
+thresholds/leaves and by the white-box layout correspondence, which compares table length, every chain,
+the word bits, the counter and the grow/shrink counts after every call).  The theorems below quantify over
+**every** hash function, **every** seed oracle (per-table random seeds), **every** presize hint, the grow-only
+flag, and call sequences of any length (crossing any number of grow/shrink thresholds, with `Clear`
+anywhere); the right-hand sides mention none of them.
+-/
 namespace Props.C11
-theorem placeholder : True := trivial
+open Spec Model.Table Proofs.TableRefine
+
+variable {K V : Type} [DecidableEq K] [Inhabited V]
+
+/-- run a call sequence on the table model -/
+def run (var : Variant) (env : Env K) (m : St K V) : List (MOp K V) → St K V × List (MRes K V)
+  | [] => (m, [])
+  | op :: ops =>
+    let r := step var env m op
+    let rs := run var env r.1 ops
+    (rs.1, r.2 :: rs.2)
+
+/-- run the same sequence on a builtin map -/
+def specRun (sp : AMap K V) : List (MOp K V) → AMap K V × List (MOut K V × Nat)
+  | [] => (sp, [])
+  | op :: ops =>
+    let r := specStep sp op
+    let rs := specRun r.1 ops
+    (rs.1, r.2 :: rs.2)
+
+/-- per-call relation along a run: results equal (Range: equal for some enumeration order of the contents
+before the call), user-function invocation counts equal -/
+def RunRel (sp : AMap K V) : List (MOp K V) → List (MRes K V) → Prop
+  | [], [] => True
+  | op :: ops, r :: rs =>
+    OutRel sp op r.out (specStep sp op).2.1 ∧ r.fnCalls = (specStep sp op).2.2 ∧ RunRel (specStep sp op).1 ops rs
+  | _, _ => False
+
+/-- **C11 (one call)**, both tables -/
+theorem C11_step (var : Variant) (hv : GoodVariant var) (env : Env K) (sp : AMap K V) (m : St K V)
+    (h : Sim var env sp m) (op : MOp K V) :
+    Sim var env (specStep sp op).1 (step var env m op).1 ∧
+    OutRel sp op (step var env m op).2.out (specStep sp op).2.1 ∧
+    (step var env m op).2.fnCalls = (specStep sp op).2.2 :=
+  step_refines var env hv sp m h op
+
+/-- **C11 (every history)** from any related pair of states -/
+theorem C11_run (var : Variant) (hv : GoodVariant var) (env : Env K) (ops : List (MOp K V)) :
+    ∀ (sp : AMap K V) (m : St K V), Sim var env sp m →
+      Sim var env (specRun sp ops).1 (run var env m ops).1 ∧ RunRel sp ops (run var env m ops).2 := by
+  induction ops with
+  | nil => intro sp m h; exact ⟨h, trivial⟩
+  | cons op ops ih =>
+    intro sp m h
+    obtain ⟨h1, h2, h3⟩ := step_refines var env hv sp m h op
+    obtain ⟨i1, i2⟩ := ih _ _ h1
+    exact ⟨i1, h2, h3, i2⟩
+
+/-- **C11 for `Map`**: any hash, any seeds, any presize hint (that yields a non-empty table), grow-only or
+not, any call sequence: the string-keyed table behaves like the builtin map started empty. -/
+theorem C11_Map (env : Env K) (hint : Int) (growOnly : Bool) (ops : List (MOp K V))
+    (hlen : 0 < (new (V := V) mapVariant env hint growOnly).tbl.len) :
+    RunRel ([] : AMap K V) ops (run mapVariant env (new mapVariant env hint growOnly) ops).2 :=
+  (C11_run mapVariant mapVariant_good env ops [] _ (new_sim mapVariant env mapVariant_good hint growOnly hlen)).2
+
+/-- **C11 for `MapOf`** -/
+theorem C11_MapOf (env : Env K) (hint : Int) (growOnly : Bool) (ops : List (MOp K V))
+    (hlen : 0 < (new (V := V) mapOfVariant env hint growOnly).tbl.len) :
+    RunRel ([] : AMap K V) ops (run mapOfVariant env (new mapOfVariant env hint growOnly) ops).2 :=
+  (C11_run mapOfVariant mapOfVariant_good env ops [] _ (new_sim mapOfVariant env mapOfVariant_good hint growOnly hlen)).2
+
+/-- the default presize (no hint, or any hint ≤ 32·S) always yields the 32-bucket table -/
+theorem C11_default_len (var : Variant) (env : Env K) (hint : Int) (growOnly : Bool)
+    (h : hint ≤ (Gen.defaultMinMapTableLen * var.S : Nat)) :
+    (new (V := V) var env hint growOnly).tbl.len = 32 := by
+  simp only [new, newTbl, Tbl.len, List.length_replicate, if_pos h]; rfl
+
+/-- **no entry is lost, duplicated or resurrected by a grow, a shrink or a Clear**: a resize keeps every
+binding (grow, shrink) or removes every binding (clear), and re-establishes the representation invariant -/
+theorem C11_resize (var : Variant) (hv : GoodVariant var) (env : Env K) (sp : AMap K V) (m : St K V)
+    (h : Sim var env sp m) :
+    Sim var env sp (resize var env m .grow) ∧ Sim var env sp (resize var env m .shrink) ∧
+    Sim var env ([] : AMap K V) (resize var env m .clear) :=
+  ⟨resize_grow_sim var env hv sp m h, resize_shrink_sim var env hv sp m h, resize_clear_sim var env sp m h⟩
+
+/-- the retry loop of `doCompute` always terminates within its budget (each retry doubles the table) -/
+theorem C11_no_stuck (var : Variant) (hv : GoodVariant var) (env : Env K) (sp : AMap K V) (m : St K V)
+    (h : Sim var env sp m) (k : K) (g : Option V → V × Bool) (lie co : Bool) :
+    (doCompute var env m k g lie co (fuelFor m)).isSome :=
+  doCompute_some var env hv m h.inv k g lie co (fuelFor m) (by unfold fuelFor; omega)
+
+/-! ### Non-vacuity: concrete tables in each slot-occupancy pattern of the target chain -/
+
+def exEnv : Env Nat := { hash := fun k _ => BitVec.ofNat 64 k, seeds := fun _ => 0 }
+/-- a `Map` after 4 colliding inserts: root bucket full, a second bucket chained -/
+def exOps : List (MOp Nat Nat) := [.store 0 10, .store 32 11, .store 64 12, .store 96 13, .load 96, .compute 128 (fun _ => (0, true)), .size]
+
+set_option maxRecDepth 4000 in
+example : ((run mapVariant exEnv (new mapVariant exEnv 0 false) exOps).1.tbl.chain 0).length = 6 := by decide
+set_option maxRecDepth 4000 in
+example : ((run mapVariant exEnv (new mapVariant exEnv 0 false) exOps).2.map (·.out)) =
+    [.unit, .unit, .unit, .unit, .val 13 true, .val 0 false, .size 4] := by decide
+
 end Props.C11
